@@ -3,6 +3,11 @@ CONSTANT MaxColl = 1
 CONSTANT MaxReq = 1
 CONSTANT MaxVW = 2
 CONSTANT MaxBW = 1
+CONSTANT MultIn = 2
+CONSTANT MultColl = 0
+CONSTANT MultReq = 2
+CONSTANT MultTotal = 3
+CONSTANT MaxMult = 2
 CONSTANT FlagSlice = "axes"
 INIT Init
 NEXT Next
@@ -16,5 +21,6 @@ INVARIANT ScriptInputsNeutral
 INVARIANT VerdictShape
 INVARIANT OrderIrrelevant
 INVARIANT FlagIrrelevant
+INVARIANT MultiplicityIrrelevant
 INVARIANT Emit
 POSTCONDITION AllCasesVisited
